@@ -8,9 +8,8 @@ from props.hmcommon import hm_program
 from props.vhmcommon import vhm_program
 from props import C14 as c14, C13 as c13, C12 as c12
 
-LEVEL = 'exploration'
 def harnesses(tier):
-    hs = [('chase', (), False, ''), ('seqlock', (), False, ''), ('lr', (), False, ''), ('vyu', (), False, ''),
+    hs = [('chase', (), False, ''), ('seqlock', (), False, ''), ('lr', (), False, ''), ('vyu', (), False, ''), ('uq', ('XV_RECL=GC',), False, '_gc'),
           ('uq', ('XV_RECL=HPs<3>',), False, '_hp'), ('uq', ('XV_RECL=EBR',), False, '_ebr'), ('hm', ('XV_RECL=HPs<6>',), False, '_hp'),
           ('vhm', ('XV_RECL=HPs<6>',), False, '_hp')]
     hs += rc.harnesses('thorough', only=['_hp', '_ebr', '_stamp', '_lfrc', '_qsbr', '_he'] if tier != 'thorough' else None)
@@ -18,6 +17,10 @@ def harnesses(tier):
         hs += [('uq', ('XV_RECL=STAMP',), False, '_stamp'), ('uq', ('XV_RECL=LFRC', 'XV_NO_KF'), False, '_lfrc'), ('hm', ('XV_RECL=EBR',), False, '_ebr'), ('vhm', ('XV_RECL=EBR',), False, '_ebr')]
     return hs
 HARNESSES = harnesses('quick')
+THEOREM_NOTES = {
+    'scope': 'solo-termination theorems hold for the five step-level models (chase deque both policies, left_right read, vyukov weak operations, michael_scott push/pop over the GC reclaimer, seqlock load with slots > 1) for every reachable state, with explicit bounds; the *_blocking theorems exhibit the documented exceptions; all other containers and the reclaimers are covered by the solo search only',
+    'bounds used as tie': 'chase fixed 8, michael_scott (GC) 12, left_right read 7, vyukov weak 5, seqlock load 2*words+4: the implementation is run solo with exactly these budgets',
+}
 ASSUMPTIONS = [
     'reachable intermediate states = prefixes (random length) of random schedules of small programs; then one thread that is inside, or about to start, an operation documented lock-free runs alone; it must return within 5000 of its own atomic steps (the other threads stay stopped mid-operation)',
     'operations excluded as documented: strong vyukov_bounded operations, seqlock store/update and load with one slot, left_right update, vyukov_hash_map writers and iterators, nikolaev_bounded_queue with as many threads as slots',
@@ -34,7 +37,39 @@ def run(ctx):
     thorough = tier == 'thorough'
     n = 1500 if thorough else 250
     def go(name, jobs):
-        do_search(ctx, Hs[name], [(cfg, prog, 'solo', n, ctx['seed'] + i, ()) for i, (cfg, prog) in enumerate(jobs)], name, classify=lambda c, h, f, name=name: {'harness': name})
+        js = [(cfg, prog, 'solo', n, ctx['seed'] + i, ()) for i, (cfg, prog) in enumerate(jobs)]
+        # systematic part: every other thread stopped after j whole operations + k steps, then the thread runs alone
+        js += [(cfg, prog, 'solosweep', 60 if thorough else 30, ctx['seed'] + i, ()) for i, (cfg, prog) in enumerate(jobs)]
+        do_search(ctx, Hs[name], js, name, classify=lambda c, h, f, name=name: {'harness': name})
+    # ---- tie 1: the five models the theorems are about still reproduce the implementation's traces
+    tie = None
+    def corr(model, hname, cases, per, label, **kw):
+        nonlocal tie
+        st = do_correspondence(ctx, model, Hs[hname], cases, per, label, **kw)
+        tie = tie or tie_broken_sig(st, model)
+    corr('chase', 'chase', [({'container': c, 'capacity': str(k)}, c12.conc_program(rng, 1 + j % 2, 3, 2, rng.choice([0, 1, 3]))) for c in ('growing', 'fixed') for k in (2, 4) for j in range(2)], 4, 'chase')
+    corr('msq', 'uq_gc', [({'q': 'ms', 'elem': 'int'}, queue_program(rng, 2 + k % 2, 3)) for k in range(4)], 4, 'michael_scott')
+    corr('vyu', 'vyu', [({'q': 'vyu', 'cap': '2', 'elem': 'int'}, queue_program(rng, 2 + k % 2, 4, ('push', 'pushw'), ('pop', 'popw'))) for k in range(4)], 4, 'vyukov')
+    corr('lr', 'lr', [({'x': '1'}, c13.program(rng, 1 + k % 2, 1 + k % 2, 2)) for k in range(4)], 4, 'left_right')
+    corr('seqlock', 'seqlock', [({'slots': str(sl), 'size': '24'}, c14.program(rng, 2, 3, 1)) for sl in (2, 3)], 4, 'seqlock', normalize=c14.normalizer(24))
+    # ---- tie 2: the proved bounds hold on the implementation: solo runs with exactly the proved budget
+    bound_findings = []
+    def gob(name, jobs, budget, label):
+        before = len(ctx['V'].violations)
+        js = [(cfg, prog, 'solo', n, ctx['seed'] + 100 + i, ('--solo-budget', str(budget))) for i, (cfg, prog) in enumerate(jobs)]
+        fs, agg = X.search(Hs[name], js, ctx['wd'])
+        c = ctx['cov'].setdefault('bound_runs', {}); c[label] = {'budget': budget, 'executions': agg['executions'], 'exceeded': len(fs)}
+        ctx['cov']['evaluations'] = ctx['cov'].get('evaluations', 0) + agg['executions']
+        log('solo-bound[%s]: budget %d, %d executions, %d exceed the proved bound' % (label, budget, agg['executions'], len(fs)))
+        for f in fs[:1]:
+            bound_findings.append({'kind': 'solo-bound', 'detail': '%s: the implementation needs more than the %d solo steps proved for the model (%s)' % (label, budget, f['detail']), 'case': f['case'], 'harness': name})
+    gob('chase', [({'container': 'fixed', 'capacity': str(k)}, c12.conc_program(rng, 2, 5, 3, 1)) for k in (2, 4)], 8, 'chase-fixed')
+    gob('uq_gc', [({'q': 'ms', 'elem': 'int'}, queue_program(rng, 3, 4)) for _ in range(2)], 12, 'michael_scott-gc')
+    gob('lr', [({'x': '1'}, c13.program(rng, 1, 2, 3)) for _ in range(2)], 7, 'left_right-read')
+    gob('vyu', [({'q': 'vyu', 'cap': '2', 'elem': 'int'}, queue_program(rng, 3, 4, ('pushw',), ('popw',))) for _ in range(2)], 5, 'vyukov-weak')
+    gob('seqlock', [({'slots': str(sl), 'size': '24'}, c14.program(rng, 3, 3, 1)) for sl in (2, 3)], 10, 'seqlock-load')
+    if bound_findings and not tie:
+        tie = bound_findings[0]
     go('chase', [({'container': c, 'capacity': str(k)}, c12.conc_program(rng, 2, 5, 3, 1)) for c in ('growing', 'fixed') for k in (2, 4)])
     go('seqlock', [({'slots': str(s), 'size': '24'}, c14.program(rng, 3, 3, 1)) for s in (2, 3, 8)])
     go('lr', [({'x': '1'}, c13.program(rng, 1, 2, 3)) for _ in range(3)])
@@ -48,8 +83,10 @@ def run(ctx):
         go(name, [({'c': 'set'}, hm_program(rng, 3, 4, iter_ops=True, is_map=False)), ({'c': 'map', 'buckets': '2', 'memo': '1', 'hash': 'mod2'}, hm_program(rng, 3, 4, iter_ops=True))])
     for name in [k for k in Hs if k.startswith('vhm_')]:
         go(name, [({'mode': m, 'cap': '64', 'hash': 'const', 'init': '1.2.3.4.5'}, [['get 4', 'get 5', 'get 9'], ['del 2', 'ins 6 66', 'ext 1'], ['get 3', 'get 6']]) for m in ('ll', 'ss')])
+        # readers looking for exactly the key whose slot an eraser (stopped inside its delete-marker window) is overwriting
+        go(name, [({'mode': m, 'cap': '64', 'hash': 'const', 'init': '1.2.3.4.5'}, [['get 2', 'get 1', 'get 2'], ['del 2', 'ext 1', 'ins 2 77', 'del 2'], ['get 1', 'get 2', 'get 1']]) for m in ('ll', 'ss')])
     for name in [k for k in Hs if k.startswith('recl_')]:
         K = rc.K_of(name)
         mh = 0 if K == 1 else ((K - 1) if K else None)
         go(name, [({'cells': '2', 'slots': '3', 'flushes': '40'}, rc.client_program(rng, 3, 4, maxheld=mh, guard_ops=(K is None or K >= 3))) for _ in range(2)])
-    return None
+    return tie
